@@ -88,6 +88,10 @@ class C03(Check):
             ctx.phase(self.oracle_corpus, ctx, cssutils)
             ctx.phase(self.oracle_structural, ctx, cssutils, rng)
             ctx.phase(self.oracle_namespaces, ctx, cssutils, rng)
+            ctx.phase(self.oracle_media, ctx, cssutils, rng)
+            ctx.phase(self.oracle_setters, ctx, cssutils, rng)
+            ctx.phase(self.oracle_encodings, ctx, cssutils, rng)
+            ctx.phase(self.oracle_tokenpairs, ctx, cssutils, rng)
             ctx.phase(self.slots, ctx, cssutils, rng)
             ctx.phase(self.oracle_composite, ctx, cssutils, rng)
             ctx.phase(self.oracle_shipped, ctx, cssutils)
@@ -372,9 +376,13 @@ class C03(Check):
             S.MODE['drop'] = drop
             with time_limit(30):
                 t1 = sheet.cssText
-                s2 = self.parser.parseString(t1)
-                t2 = s2.cssText
                 p1 = S.project(cssutils, sheet)
+                try:
+                    s2 = self.parser.parseString(t1)
+                except UnicodeDecodeError as e:
+                    # the serialised bytes cannot even be decoded again
+                    return t1, ('reparse raised %r' % (e,)).encode('ascii', 'replace'), p1, None
+                t2 = s2.cssText
                 p2 = S.project(cssutils, s2)
             return t1, t2, p1, p2
         finally:
@@ -396,7 +404,7 @@ class C03(Check):
         known = sorted(regions)[0] if regions else None
         detail = {'serialised': t1.decode('utf-8', 'replace')[:2000], 'reserialised': t2.decode('utf-8', 'replace')[:2000],
                   'regions': sorted(regions), 'preferences': variant}
-        if not dom_ok:
+        if not dom_ok and p2 is not None:
             for a, b in zip(p1, p2):
                 if a != b:
                     detail['dom_first_difference'] = [repr(a)[:800], repr(b)[:800]]
@@ -424,6 +432,18 @@ class C03(Check):
         """regions that are a property of the edited DOM rather than of a token"""
         regs = set()
         has_default = any(r.type == S.RULE.NAMESPACE_RULE and not r.prefix for r in sheet.cssRules)
+        import codecs
+        try:
+            cname = codecs.lookup(sheet.encoding).name
+            probe = '@charset "'.encode(sheet.encoding)
+        except (LookupError, UnicodeError):
+            cname, probe = None, b'@charset "'
+        if cname == 'utf-8-sig':
+            # written with a BOM, which wins over the @charset rule on reparse: the rule then says utf-8
+            regs.add('C03-charset-utf-8-sig')
+        elif probe != b'@charset "' and not (cname or '').startswith(('utf-16', 'utf-32')):
+            # neither a BOM nor a readable @charset rule: the bytes are decoded as UTF-8
+            regs.add('C03-charset-not-ascii-compatible')
 
         def walk(rules):
             for r in rules:
@@ -434,6 +454,35 @@ class C03(Check):
                                     (item.type.endswith('type-selector') or item.type.endswith('universal')):
                                 # parsed before the sheet had a default namespace: written `|name`
                                 regs.add('C03-default-namespace-after-selectors')
+                if r.type == S.RULE.IMPORT_RULE and r.name is not None and not any(i.type == 'name' for i in r.seq):
+                    # the name setter only replaces an existing name item
+                    regs.add('C03-import-name-setter')
+                if r.type in (S.RULE.IMPORT_RULE, S.RULE.MEDIA_RULE):
+                    for it in r.media:
+                        mt = getattr(it.value, 'mediaText', '')
+                        if mt.count('(') != mt.count(')'):
+                            # MediaQuery.mediaType = x on a query that starts with an expression overwrites its "("
+                            regs.add('C03-mediaquery-mediatype-setter')
+                if r.type == S.RULE.PAGE_RULE:
+                    st, hit = 'start', False
+                    for t in self.tk.tokenize(r.selectorText):
+                        if t[0] == 'S':
+                            continue
+                        if t[0] == 'IDENT' and st == 'start':
+                            st = 'named'
+                        elif t[0] == 'COMMENT' and st in ('named', 'named-comment'):
+                            st = 'named-comment'
+                        elif t[0] == 'CHAR' and t[1] == ':' and st == 'named-comment':
+                            hit = True
+                        elif t[0] != 'COMMENT':
+                            st = 'other'
+                    if hit:
+                        # a comment between page name and pseudo-page gets a space behind it
+                        regs.add('C03-page-selector-comment')
+                    margins = [m.margin for m in r.cssRules]
+                    if len(set(margins)) != len(margins):
+                        # add() / insertRule() do not merge a second block for the same margin box, the parser does
+                        regs.add('C03-page-duplicate-margin')
                 if r.type == S.RULE.MEDIA_RULE:
                     walk(r.cssRules)
                 elif r.type == S.RULE.PAGE_RULE:
@@ -498,6 +547,54 @@ class C03(Check):
                 self.judge(ctx, cssutils, sheet, dict(witness, preferences=variant), self.dom_regions(cssutils, sheet),
                            'namespace', variant)
 
+    # -- media lists: media types in every letter case x append / delete / assign / mediaText ------------------
+    def oracle_media(self, ctx, cssutils, rng):
+        full = ctx.tier_counts == 'thorough'
+        for src, op in S.media_cases(rng, full):
+            with time_limit(30):
+                sheet = self.parser.parseString(src)
+                accepted = S.apply_op(cssutils, sheet, op)
+            ctx.case(key=('media', src, tuple(op)), nontrivial=True, kind='media:%s:%s' % (op[0], 'accepted' if accepted else 'refused'))
+            if not accepted:
+                continue
+            witness = {'css': src, 'op': op, 'serialised_after_edit': sheet.cssText.decode('utf-8', 'replace')}
+            self.judge(ctx, cssutils, sheet, witness, self.dom_regions(cssutils, sheet), 'media')
+
+    # -- attribute setters of single nodes ---------------------------------------------------------------------
+    def oracle_setters(self, ctx, cssutils, rng):
+        full = ctx.tier_counts == 'thorough'
+        for src, op in S.setter_cases(rng, full):
+            with time_limit(30):
+                sheet = self.parser.parseString(src)
+                accepted = S.apply_op(cssutils, sheet, op)
+            ctx.case(key=('setter', src, repr(op)), nontrivial=True, kind='setter:%s:%s' % (op[0], 'accepted' if accepted else 'refused'))
+            if not accepted:
+                continue
+            raws = [('uri-or-string', op[2])] if op[0] == 'importHref' else []
+            regs = self.regions_of(cssutils, [src], raws, encoding=sheet.encoding) | self.dom_regions(cssutils, sheet)
+            witness = {'css': src, 'op': op, 'serialised_after_edit': sheet.cssText.decode('utf-8', 'replace')}
+            self.judge(ctx, cssutils, sheet, witness, regs, 'setter')
+
+    # -- every slot under sheet encodings that can / cannot encode the content -------------------------------
+    def oracle_encodings(self, ctx, cssutils, rng):
+        full = ctx.tier_counts == 'thorough'
+        for src in S.encoding_cases(rng, full):
+            with time_limit(30):
+                sheet = self.parser.parseString(src)
+            regs = self.regions_of(cssutils, [src], encoding=sheet.encoding) | self.dom_regions(cssutils, sheet)
+            ctx.case(key=('enc', src), nontrivial=True, kind='encoding:' + sheet.encoding.lower()[:12])
+            self.judge(ctx, cssutils, sheet, {'css': src}, regs, 'encoding')
+
+    # -- unknown at-rules: pairs of punctuation tokens must not fuse or change when the white space between them goes ----
+    def oracle_tokenpairs(self, ctx, cssutils, rng):
+        full = ctx.tier_counts == 'thorough'
+        for src in S.tokenpair_cases(rng, full):
+            with time_limit(30):
+                sheet = self.parser.parseString(src)
+            regs = self.regions_of(cssutils, [src], encoding=sheet.encoding) | self.dom_regions(cssutils, sheet)
+            ctx.case(key=('pair', src), nontrivial=True, kind='tokenpair')
+            self.judge(ctx, cssutils, sheet, {'css': src}, regs, 'tokenpair')
+
     # -- (3) one content item in one slot: what is stored, what is written, does it survive -------------
     SLOTS = {
         'string': [
@@ -543,6 +640,10 @@ class C03(Check):
             ('selector', 'a %s b{c:d}', None, None, None, None, None),
             ('media', '@media all{%s a{b:c}}', None, None, None, None, None),
             ('import', '@import "x" %s;', None, None, None, None, None),
+            ('pagename', '@page a%s:first{b:c}', None, None, None, None, None),
+            ('page', '@page %s :left{b:c}', None, None, None, None, None),
+            ('unknown', '@foo a %s b;', None, None, None, None, None),
+            ('unknownblock', '@foo {a:b %s}', None, None, None, None, None),
         ],
     }
 
